@@ -5,7 +5,8 @@ LEVEL = 'exploration'
 SHARDS = {'quick': 8, 'thorough': 16}
 BUDGET = {'quick': 80, 'thorough': 900}
 TECHNIQUE = 'runtime monitoring with a deterministic scheduler: client threads are serialised on sys.monitoring LINE events of sigtools code and preempted at chosen statement boundaries (replayable schedules); boundary monitor compares each result with the sequential answer and the shared objects at quiescence; plus free-running stress with a 1 microsecond switch interval'
-RULE = ('16 shared-object scenarios (two sigtools retrievals of one functools.wraps wrapper; sigtools vs inspect; two inspect retrievals '
+RULE = ('(solo profiles are repeated until two consecutive runs agree: state that builds up legitimately changes step counts, not answers) '
+        '16 shared-object scenarios (two sigtools retrievals of one functools.wraps wrapper; sigtools vs inspect; two inspect retrievals '
         'of an as_forged object (forger wrapper, wrappers.decorator); wrapper and wrapped retrieved concurrently; modifiers- and forger-'
         'wrapped methods of one instance; a bound wrapper dropped and collected by a third thread while a second looks the method up; the '
         'first-ever lookups of forged special methods on fresh classes; functools.wraps wrappers made at run time around a function others may have analysed; a functools.lru_cache callee; a modifiers wrapper over a function without retrievable source; three-thread mixes). Per scenario: each operation alone on freshly built objects (the answer "when run alone"; compared with the answer after the other operations have run, and the shared objects must keep their attributes), then each operation alone in the shared state (sequential '
